@@ -1275,14 +1275,16 @@ ASMJIT_FAVOR_SPEED Error BaseRAPass::build_liveness() noexcept {
             }
           }
 
-          if (tied_reg->use_reg_mask()) {
+          // NOTE: Only use the mask that is relevant - `use_reg_mask` of OUT-only registers excludes all fixed registers
+          // used by the instruction, which could include the fixed OUT register itself (function call return value).
+          if (tied_reg->is_use() && tied_reg->use_reg_mask()) {
             work_reg->restrict_preferred_mask(tied_reg->use_reg_mask());
             if (work_reg->is_lead_consecutive()) {
               work_reg->restrict_consecutive_mask(tied_reg->use_reg_mask());
             }
           }
 
-          if (tied_reg->out_reg_mask()) {
+          if (tied_reg->is_out() && tied_reg->out_reg_mask()) {
             work_reg->restrict_preferred_mask(tied_reg->out_reg_mask());
             if (work_reg->is_lead_consecutive()) {
               work_reg->restrict_consecutive_mask(tied_reg->out_reg_mask());
